@@ -228,6 +228,8 @@ func checkStats(c *explore.Ctx, scope string, idx int64, where string, seg segme
 	return true
 }
 
+var c16Other = []model.Doc{gen.MixDoc(3, "n", 0), gen.MixDoc(9, "n", 1), gen.MixDoc(2, "n", 2), gen.MixDoc(5, "n", 3)}
+
 func runC16(c *explore.Ctx) {
 	// built and persisted+loaded segments
 	K := 8
@@ -256,6 +258,12 @@ func runC16(c *explore.Ctx) {
 			}
 			if !checkStats(c, scope, idx, "built", seg, ls, cas) {
 				return true
+			}
+			// its statistics must not change when another batch is built afterwards (the builder is pooled)
+			if _, err := build(c16Other, m); err == nil {
+				if !checkStats(c, scope, idx, "built-then-another-build", seg, ls, cas) {
+					return true
+				}
 			}
 			b, _, err := persist(seg)
 			if err != nil {
